@@ -15,6 +15,9 @@ of the N-th `p[i]`: index widened to 64 bits times sizeof(*p)); constructors are
 `callarg:operator()#k.i` reaches arguments of functor calls; a pointer used as a truth value or compared
 with nullptr becomes a Bool parameter `<name>_nonnull`; `convertor(x)` / `(*convertor)(x)` becomes the
 application of a function parameter `convertor<width>`.
+Added for the accessor tie: `ptroffs:N` (byte offset of the N-th `pointer + integer` on a typed pointer: the integer
+operand widened to 64 bits times sizeof(*pointer); same counting as `ptroff:N`, whose meaning is unchanged); an
+element `p[i]` of a raw array used as a value becomes a parameter `<p>_at_<i>` (the checked read is the model's).
 
 Output files are only rewritten when their content changes (so lake does not rebuild
 for nothing).  Exit status 0 = everything translated; a site that cannot be found or
@@ -540,6 +543,14 @@ class Tr:
                 raise Broken("pointer-valued container element")
             cont = self.obj_name(inner[1]); idx = self.obj_name(inner[2])
             return self.fv(cont + "_at" + ("_" + idx if idx and idx != "obj" else ""), lean_ty(ct))
+        if k == "ArraySubscriptExpr":
+            # element of a raw array `p[i]` used as a value: the (checked) read is the model's business; here
+            # it is a parameter `<p>_at_<i>` (same convention as container elements)
+            ct = ctype(n)
+            if ct[0] == "ptr":
+                raise Broken("pointer-valued array element")
+            base = self.obj_name(inner[0]); idx = self.obj_name(inner[1])
+            return self.fv(base + "_at" + ("_" + idx if idx and idx != "obj" else ""), lean_ty(ct))
         if k == "CallExpr":
             # std::numeric_limits<T>::max()
             def callee_name(c):
@@ -1197,6 +1208,17 @@ def select0(fn, sel):
                     return n                      # translate_site scales the index by the element size
                 i += 1
         raise Broken(f"{kind} #{nth} not found")
+    if kind == "ptroffs":
+        # the N-th `pointer + integer` itself (same counting as ptroff:N); translate_site scales the integer
+        # operand by the size of the pointee
+        nth = int(arg or 0); i = 0
+        for n in walk(body):
+            q = n.get("type", {}).get("desugaredQualType") or n.get("type", {}).get("qualType", "")
+            if n.get("kind") == "BinaryOperator" and n.get("opcode") == "+" and q.strip().endswith("*"):
+                if i == nth:
+                    return n
+                i += 1
+        raise Broken(f"{kind} #{nth} not found")
     if kind == "deref":
         # operand of the N-th `*p` (source order): translated to its byte offset from the base pointer
         nth = int(arg or 0); i = 0
@@ -1266,7 +1288,7 @@ def selector_family(sel):
     base, sep, path = sel.partition("/")
     suffix = sep + path
     kind, _, arg = base.partition(":")
-    if kind in ("if", "while", "return", "switch", "for", "ptroff", "index", "deref", "ptroffpm"):
+    if kind in ("if", "while", "return", "switch", "for", "ptroff", "index", "deref", "ptroffpm", "ptroffs"):
         return (kind + ":", int(arg or 0), suffix)
     if kind in ("var", "assign"):
         name, _, nth = arg.partition("#")
@@ -1445,6 +1467,23 @@ def translate_site(site, consts, sizes, key):
                 raise Broken("++/-- on a non-integer")
             body = f"({tr.expr(tgt)} {'+' if node['opcode'] == '++' else '-'} 1#{ct[1]})"
             rty = lean_ty(ct)
+        elif site.get("select", "").split("/")[0].startswith("ptroffs:"):
+            # scaled pointer arithmetic `p + e` on a `T*`: byte offset = (64-bit e) * sizeof(T)
+            a, b = strip_comments(node)
+            def _isp(x):
+                q = x.get("type", {}).get("desugaredQualType") or x.get("type", {}).get("qualType", "")
+                return q.strip().endswith("*")
+            pe, ie = (a, b) if _isp(a) else (b, a)
+            q = pe.get("type", {}).get("desugaredQualType") or pe.get("type", {}).get("qualType", "")
+            q = re.sub(r"\b(const|volatile|struct)\b", "", q).strip()
+            q = re.sub(r"\*\s*$", "", q).strip().replace("ELFIO::", "")
+            if q in sizes:
+                esz = f"(BitVec.ofNat 64 Gen.sizeof_{q})"
+            else:
+                esz = f"{ctype(q)[1] // 8}#64"
+            ict = ctype(ie)
+            body = f"({tr.cast(tr.expr(ie), ict, ('int', 64, ict[2]))} * {esz})"
+            rty = "BitVec 64"
         elif (tr.try_ctype(node) or ("", 0, 0))[0] == "ptr":
             base, off = tr.ptr_off(node)
             body = off if off is not None else "0#64"
